@@ -104,7 +104,7 @@ def kUnmarshal (d : KState) (b : Bytes) : Bool × KState :=
 
 /-- `rt alg=b|s|k256|k512 size=N key=HEX pre=OPS post=OPS data=HEX`
     `um alg=… size=N state=HEX post=OPS data=HEX` -/
-def handle (line : String) : String :=
+def handle0 (line : String) : String :=
   let o := parseOp line
   if o.cmd != "rt" ∧ o.cmd != "um" then "bad-op" else
   match o.get? "alg" with
@@ -137,5 +137,11 @@ def handle (line : String) : String :=
     if o.cmd == "um" then umOn kMach newKeccak512 kUnmarshal o
     else rtOn kMach newKeccak512 newKeccak512 (fun d => some d.marshal) kUnmarshal o
   | _ => "bad-op"
+
+/-- the harness appends ` mut=…` (caller-memory report of hx.Arena: inputs unmodified, nothing written outside
+    the permitted regions, nothing retained); the model is a pure function of contents, so it answers `mut=-` -/
+def handle (line : String) : String :=
+  let r := handle0 line
+  if r == "bad-op" then r else r ++ " mut=-"
 
 end XC.C07
